@@ -75,6 +75,33 @@ def xtrig_cases():
     ]
 
 
+def suicide_cases():
+    """hand-written histories of `cylc set --pre` on a task that has a suicide trigger (`a:fail? => !b`): the suicide
+    prerequisite is not a prerequisite of the task - `--pre=all` leaves it unsatisfied, and the task survives the
+    success of `a`"""
+    from _s3set import S, L, sub, msg, run_ok, case
+    return [
+        # not in the pool yet: spawned by the command; 1/a succeeds later, 1/b runs, 1/c follows
+        case('s3s-all-inactive', 'a? => b => c; a:fail? => !b',
+             [L, sub('1/a'), msg('1/a', 'started'), L, S('1/b', pre=['all']), L, msg('1/a', 'succeeded'), L, L,
+              *run_ok('1/b'), L, L, L]),
+        # in the pool, waiting for 1/a
+        case('s3s-all-pooled', 'a? & d => b => c; a:fail? => !b',
+             [L, *run_ok('1/d'), L, sub('1/a'), msg('1/a', 'started'), L, S('1/b', pre=['all']), L,
+              msg('1/a', 'succeeded'), L, L, *run_ok('1/b'), L, L]),
+        # the suicide atom named: not a prerequisite of 1/b; one real prerequisite named
+        case('s3s-named', 'a? & d => b => c; a:fail? => !b',
+             [L, *run_ok('1/d'), L, S('1/b', pre=['1/a:failed']), L, S('1/b', pre=['1/a:succeeded']), L,
+              sub('1/a'), msg('1/a', 'started'), msg('1/a', 'succeeded'), L, L, L]),
+        # the natural course: 1/a fails, the suicide trigger removes 1/b although its prerequisites were set
+        case('s3s-fail', 'a? & d => b => c; a:fail? => !b',
+             [L, *run_ok('1/d'), L, S('1/b', pre=['all']), sub('1/a'), msg('1/a', 'started'), msg('1/a', 'failed'), L, L, L]),
+        # `cylc set --out` on the parent: the suicide prerequisite is satisfied naturally by the forced output
+        case('s3s-out-failed', 'a? & d => b => c; a:fail? => !b',
+             [L, *run_ok('1/d'), L, S('1/a', out=['failed']), L, L]),
+    ]
+
+
 class C29(SchedProp):
     id = 'C29'
     props_modules = ['CylcModel.Props.C29']
@@ -82,6 +109,8 @@ class C29(SchedProp):
         'CylcModel.C29.set_prereqs_keeps_atoms',
         'CylcModel.C29.set_prereqs_only_requested',
         'CylcModel.C29.set_pre_pooled',
+        'CylcModel.C29.set_pre_keeps_suicide',
+        'CylcModel.C29.set_pre_pooled_keeps_suicide',
         'CylcModel.C29.valid_xtrigs_are_carried',
         'CylcModel.C29.carried_xtrigs_are_valid',
         'CylcModel.C29.set_xtrigs_keeps_labels',
@@ -123,6 +152,10 @@ class C29(SchedProp):
         '(clock / custom function) xtriggers are not modelled at all - only the two retry xtriggers per proxy, with delays '
         'abstracted to zero / never-over-within-the-run; that force_satisfy_all runs when the task begins submission and '
         'that a restart drops the retry xtriggers are modelled and tied by the correspondence, not stated as theorems. '
+        'PROVED - suicide prerequisites: what `cylc set --pre` does to a proxy (any prerequisites, --pre=all included, any '
+        'xtriggers) leaves its suicide prerequisites exactly as they were, also through the flow merge of a pooled task '
+        '(set_pre_keeps_suicide, set_pre_pooled_keeps_suicide; the valid prerequisites of an instance exclude them: '
+        'valid_prereqs_are_own over TaskDef.get_prereqs; for a task spawned by the command the judge checks it on every trace). '
         'PROVED - prerequisites: force_satisfy keeps every prerequisite\'s atoms and expression and '
         'satisfies exactly the requested atoms (all with --pre=all), nothing else (set_prereqs_keeps_atoms, '
         'set_prereqs_only_requested); the requested atoms that count are those among the instance\'s graph prerequisites '
@@ -173,15 +206,17 @@ class C29(SchedProp):
             'prerequisites (all / 1-2 of the task\'s / not of the task / xtrigger prerequisites: the retry xtrigger the target '
             'carries, xtrigger/all, a retry label it does not carry, an unknown label - alone or mixed with task '
             'prerequisites; retry delays are PT1H with p = 0.6 per line so that failed tasks wait behind their retry '
-            'xtrigger, and such tasks are preferred targets) on one pooled or not-yet-spawned instance in any state, '
+            'xtrigger, and such tasks are preferred targets; suicide triggers `x:fail? => !t` next to the triggers of t with '
+            'p = 0.6, and with p = 0.4 a --pre command is aimed at an instance that has suicide prerequisites, mostly with '
+            '--pre=all) on one pooled or not-yet-spawned instance in any state, '
             'with --flow default / new / none / numbers and --wait, plus hold, release, hold point, pause, stop + restart '
             '(kind set: jobs complete their required outputs; kind setany: failures, submit failures, missing outputs, '
-            'duplicate / stale / out-of-order messages); 30 hand-written histories (no-flow tasks, flow wait, re-run in a new '
-            'flow, transient parents, joins; 13 of a task waiting behind an execution / submission retry xtrigger and '
+            'duplicate / stale / out-of-order messages); 35 hand-written histories (no-flow tasks, flow wait, re-run in a new '
+            'flow, transient parents, joins; 5 of `cylc set --pre` on a task with a suicide trigger; 13 of a task waiting behind an execution / submission retry xtrigger and '
             '`cylc set --pre=xtrigger/<label>`, xtrigger/all, all, labels not carried, both xtriggers, restart); non-trivial = distinct class (kind, ending, which set variants occurred on '
             'pooled / inactive targets, merges, flow-wait, restart with several flows) per distinct case')
     kinds = ('set', 'setany')
-    gen_opts = {'xtrig': True}
+    gen_opts = {'xtrig': True, 'suic': True}
     n_quick = 48
     n_thorough = 720
 
@@ -189,7 +224,7 @@ class C29(SchedProp):
         return _s3set.translate_flags()
 
     def corpus(self):
-        return _s3set.corpus_cases() + xtrig_cases()
+        return _s3set.corpus_cases() + xtrig_cases() + suicide_cases()
 
     def impl_batch(self, inputs):
         return _s3set.retry_flakes(sprop.run_workers, inputs, _s3set.run_robust(sprop.run_workers, inputs, self.workers))
@@ -216,6 +251,8 @@ class C29(SchedProp):
                 pooled = any((t['p'], t['n']) == (int(p), n) for t in obs[k]['pool'])
                 fl = a.get('flow') or []
                 pres = a.get('prerequisites') or []
+                if pres and any((x[0], x[1]) == (int(p), n) for x in obs[k + 1].get('suip', [])) if k + 1 < len(obs) else False:
+                    seen.add('presui' + ('-all' if pres == ['all'] else ''))
                 if any(q.startswith('xtrigger/') for q in pres):
                     unsat = [x[2] for x in obs[k].get('xtr', []) if (x[0], x[1]) == (int(p), n) and not x[3]]
                     named = [q.split('/', 1)[1].split(':')[0] for q in pres if q.startswith('xtrigger/')]
